@@ -615,6 +615,44 @@ Section EncProofs.
 End EncProofs.
 
 (* ---------------------------------------------------------------------------------------- *)
+(*  udpTunnelConn.ReceivePacket: independent of how the transport chunks / coalesces records   *)
+(* ---------------------------------------------------------------------------------------- *)
+Lemma tc_recv_record d X r : lenN d < 65536 -> rest r = enc_dgram d ++ X ->
+  exists r', tc_recv r = (TcOk d, r') /\ rest r' = X /\ endk r' = endk r.
+Proof.
+  intros Hd Hr. unfold tc_recv.
+  destruct (read_full_spec (length (rest r)) 2 r (le_n _)) as [A _].
+  destruct A as (r1 & E1 & R1 & K1).
+  { rewrite Hr. unfold enc_dgram. rewrite !lenN_app. unfold lenN at 1. cbn [be16 length]. lia. }
+  rewrite E1. rewrite Hr in E1, R1 |- *. unfold enc_dgram in R1 |- *. cbn [be16 app firstn skipn N.to_nat Pos.to_nat Pos.iter_op Nat.add] in R1 |- *.
+  match goal with |- context [de16 ?l] => replace (de16 l) with (lenN d) by (symmetry; apply (de16_be16 (lenN d) Hd)) end.
+  assert (R1' : rest r1 = d ++ X) by exact R1. clear R1. rename R1' into R1.
+  destruct (read_full_spec (length (rest r1)) (lenN d) r1 (le_n _)) as [B _].
+  destruct B as (r2 & E2 & R2 & K2).
+  { rewrite R1, lenN_app. lia. }
+  rewrite E2, R1. assert (Hn : N.to_nat (lenN d) = length d) by (unfold lenN; lia).
+  rewrite Hn, firstn_app, Nat.sub_diag, firstn_all. cbn [firstn]. rewrite app_nil_r.
+  exists r2. split; [reflexivity|]. split; [|congruence].
+  rewrite R2, R1, Hn, skipn_app, Nat.sub_diag, skipn_all. reflexivity.
+Qed.
+
+Theorem tc_roundtrip_any_chunking : forall ds r,
+  Forall (fun d => lenN d < 65536) ds -> rest r = encode_all ds ->
+  tc_recv_all (S (length ds)) r = ds.
+Proof.
+  induction ds as [|d ds IH]; intros r Hv Hr.
+  - cbn [encode_all flat_map] in Hr. cbn [tc_recv_all length]. unfold tc_recv.
+    destruct (read_full_spec (length (rest r)) 2 r (le_n _)) as [_ B].
+    destruct B as (r' & E & _); [rewrite Hr; unfold lenN; cbn [length]; lia|]. rewrite E. reflexivity.
+  - inversion Hv as [|? ? Hd Hds]; subst.
+    change (encode_all (d :: ds)) with (enc_dgram d ++ encode_all ds) in Hr.
+    destruct (tc_recv_record d (encode_all ds) r Hd Hr) as (r' & E & R & _).
+    change (tc_recv_all (S (length (d :: ds))) r) with
+      (match tc_recv r with (TcOk x, r0) => x :: tc_recv_all (S (length ds)) r0 | (TcErr, _) => [] end).
+    rewrite E. f_equal. apply IH; assumption.
+Qed.
+
+(* ---------------------------------------------------------------------------------------- *)
 (*  top-level UDP statements (parametric in the buffer sizes; instantiated in SideC12.v)      *)
 (* ---------------------------------------------------------------------------------------- *)
 Section UdpTop.
